@@ -1217,7 +1217,7 @@ def gen_sites(src, out):
     m3 = re.search(r"ScalarType\* cur_P = \(ScalarType\*\)malloc\(\(([^)]+)\) \* sizeof\(ScalarType\)\);", body)
     m4 = re.search(r"col_P\[row_P\[n\] \+ (\w+)\] = indices\[([^\]]+)\]\.index\(\);", body)
     m5 = re.search(r"row_P\[n \+ 1\] = row_P\[n\] \+ ([^;]+);", body)
-    m6 = re.search(r"\*_col_P = \(int\*\)calloc\(static_cast<size_t>\(N\) \* K, sizeof\(int\)\);", body)
+    m6 = re.search(r"\*_col_P = \(int\*\)calloc\((?:static_cast<size_t>\(N\)|N) \* K, sizeof\(int\)\);", body)
     if not (m and m2 and m3 and m4 and m5 and m6):
         raise TranslateError("tsne.hpp: sparse computeGaussianPerplexity sites not found")
     out.defn("tsne_knn_requested", ["K"], E(m.group(1), {"K": "K"}, what="tsne search"), "`tree->search(obj_X[n], %s, …)` returns min(that, N) records" % m.group(1))
@@ -1404,12 +1404,99 @@ open TapkeeVerif.Pipeline
 """
 
 
+# ----------------------------------------------------------------------------- §4 allocation sizes and integer width
+def _top_split(expr, seps):
+    """split at the given one-character separators outside parentheses / brackets / angle brackets of casts"""
+    parts, depth, cur, i = [], 0, "", 0
+    while i < len(expr):
+        ch = expr[i]
+        if ch in "([":
+            depth += 1
+        elif ch in ")]":
+            depth -= 1
+        if depth == 0 and ch in seps and not (ch == "-" and (not cur.strip())):
+            parts.append(cur)
+            cur = ""
+        else:
+            cur += ch
+        i += 1
+    parts.append(cur)
+    return [p.strip() for p in parts if p.strip()]
+
+
+def size_expr_safe(expr):
+    """Is every product of the size expression computed in a wide type (size_t / ptrdiff_t)?  `a * b` of two run-time `int`s
+    is evaluated in `int` BEFORE any later conversion, so `N * N * sizeof(T)` can wrap while
+    `static_cast<size_t>(N) * N * sizeof(T)` cannot.  Literal factors do not count; a parenthesised sum is wide if one of
+    its summands is wide."""
+    def wide(f):
+        f = f.strip()
+        return (f.startswith("static_cast<size_t>") or f.startswith("sizeof") or "end - begin" in f or f.endswith(".size()")
+                or f.startswith("(size_t)"))
+
+    def analyse(e):
+        """-> (safe, is_wide)"""
+        e = e.strip()
+        ok, anywide = True, False
+        for term in _top_split(e, "+-"):
+            acc_wide, narrow_seen = False, 0
+            for f in _top_split(term, "*"):
+                if re.fullmatch(r"[\d.]+[uUlLfF]*", f):
+                    continue
+                if f.startswith("(") and f.endswith(")") and not wide(f):
+                    s_, w_ = analyse(f[1:-1])
+                    ok = ok and s_
+                    fw = w_
+                else:
+                    fw = wide(f)
+                if fw:
+                    acc_wide = True
+                elif not acc_wide:
+                    narrow_seen += 1
+                    if narrow_seen >= 2:
+                        ok = False
+            anywide = anywide or acc_wide
+        return ok, anywide
+    return analyse(expr)[0]
+
+
+def gen_alloc(src, out):
+    out.comment("§4 sizes handed to malloc / calloc (external/barnes_hut_sne/tsne.hpp) and reserve (routines/*.hpp):\n"
+                "(file, size expression, every product of two run-time integers is evaluated in size_t / ptrdiff_t)")
+    rows = []
+    ft = "tapkee/external/barnes_hut_sne/tsne.hpp"
+    s = src.norm(ft)
+    for m in re.finditer(r"\b(malloc|calloc)\(", s):
+        end = balanced_end(s, m.end() - 1)
+        args = split_args(s[m.end():end - 1])
+        if not args:
+            raise TranslateError("tsne.hpp: %s without arguments" % m.group(1))
+        size = args[0] if m.group(1) == "calloc" else args[0]
+        rows.append((ft, "%s(%s)" % (m.group(1), ", ".join(args)), size_expr_safe(size)))
+    rdir = os.path.join(src.repo, "include", "tapkee", "routines")
+    for fn in sorted(os.listdir(rdir)):
+        if not fn.endswith(".hpp"):
+            continue
+        rel = "tapkee/routines/" + fn
+        s = src.norm(rel)
+        for m in re.finditer(r"\b(\w+)\.reserve\(", s):
+            end = balanced_end(s, m.end() - 1)
+            arg = s[m.end():end - 1]
+            rows.append((rel, "%s.reserve(%s)" % (m.group(1), arg), size_expr_safe(arg)))
+    if len(rows) < 10:
+        raise TranslateError("allocation sites: only %d found" % len(rows))
+    out.raw("def allocSites : List (String × String × Bool) := [")
+    out.raw(",\n".join("  (%s, %s, %s)" % (lean_str(a), lean_str(b), "true" if c else "false") for a, b, c in rows))
+    out.raw("]")
+
+
 def render(repo):
     src = Source(repo)
     out = Out()
     gen_validation(src, out)
     gen_sites(src, out)
     gen_errors(src, out)
+    gen_alloc(src, out)
     return HEADER + "\n".join(out.lines) + "\n\nend TapkeeVerif.Gen.IndexExprs\n"
 
 
